@@ -73,7 +73,8 @@ def rand_descriptor(rng, depth, fail_bias=0.35):
         return descriptor(name, params, attrs)
     name = rng.choice(NAMES_OK)
     if rng.random() < fail_bias * 0.3:
-        params = _fresh(rng.choice(PARAMS_BAD))
+        # (a tuple becomes a JSON list on the payload path: Enum(1, 2) / Decimal(1, 2) are not modelled)
+        params = _fresh(rng.choice(PARAMS_BAD[:-1] if name in ("vmod_a.Color", "decimal.Decimal") else PARAMS_BAD))
     else:
         ps = PARAMS_BY_CLASS[name]
         params = _fresh(ps[0] if rng.random() < 0.55 else rng.choice(ps))
